@@ -14,8 +14,8 @@
    high nibble (known finding prefix-trim, inherited from InMemoryTrie.GetKeysWithPrefix and pinned by
    TestTrie_ClearPrefixVsDelete): C38_prefix_refuted.  Outside guard_trim the statement is proved. *)
 From Common Require Import Bytes Outcome.
-From Trie Require Import Nibbles Node Encode Model Spec MapProofs.
-From C38 Require Import Model Proofs.
+From Trie Require Import Nibbles Node Encode Model Spec MapProofs SpecProofs GoSpec.
+From C38 Require Import Model Proofs ProofsGo.
 
 (* every page size > 0, every state, every prefix outside the guard: the loop ends and returns the
    keys with the prefix cut into pages ... *)
@@ -76,4 +76,77 @@ Example C38_nonvacuous :
     Ok ([[[]; [n2b 0]]; [[n2b 0; n2b 0]; [n2b 0; n2b 1]]; [[n2b 1]; [n2b 255]]; []], true) /\
   guard_trim (bm_of_list es) [n2b 0] = true /\
   paging 9 (trie_of_entries es) [n2b 1] 1 [] = Ok ([[[n2b 1]]; []], true).
+Proof. vm_compute. repeat split; reflexivity. Qed.
+
+(* ================================================================== audit round (aud-rpc-host) *)
+
+(* FULL characterisation, no guard: for every state, every prefix and every page size > 0 the client
+   loop terminates and its pages are go_keys_with_prefix m p — the keys whose nibbles start with the
+   nibbles of the prefix minus one trailing zero nibble (what InMemoryTrie.GetKeysWithPrefix matches) —
+   in ascending order, each once, cut into pages of qty. *)
+Theorem C38_paging_go : forall t m p qty fuel,
+  Rep t m -> (0 < qty)%N -> (length (go_keys_with_prefix m p) < fuel * N.to_nat qty)%nat ->
+  paging fuel t p qty [] = Ok (pages_of (go_keys_with_prefix m p) qty, true) /\
+  concat (pages_of (go_keys_with_prefix m p) qty) = go_keys_with_prefix m p /\
+  bsorted (go_keys_with_prefix m p) /\ NoDup (go_keys_with_prefix m p).
+Proof.
+  intros t m p qty fuel R Q F. split; [exact (paging_go t m p qty R Q fuel F)|].
+  split; [exact (pages_of_concat _ qty Q)|].
+  split; [exact (bsorted_go_keys t m p R)|exact (bsorted_NoDup _ (bsorted_go_keys t m p R))].
+Qed.
+Print Assumptions C38_paging_go.
+
+(* Hence the property's statement holds for a (state, prefix) pair EXACTLY when it lies outside the
+   guard prefix-trim: the guard is not only sufficient (C38_paging_partial) but necessary. *)
+Theorem C38_paging_exact : forall t m p qty fuel,
+  Rep t m -> (0 < qty)%N -> (length (go_keys_with_prefix m p) < fuel * N.to_nat qty)%nat ->
+  (paging fuel t p qty [] = Ok (spec_paging m p qty, true) <-> guard_trim m p = false).
+Proof. intros t m p qty fuel R Q F. exact (paging_exact t m p qty R Q fuel F). Qed.
+Print Assumptions C38_paging_exact.
+
+Theorem C38_pairs_exact : forall t m p, Rep t m ->
+  pairs t (Some p) = Ok (go_pairs m p) /\
+  (pairs t (Some p) = Ok (spec_pairs m (Some p)) <-> guard_trim m p = false).
+Proof. intros t m p R. split; [exact (pairs_go t m p R)|exact (pairs_exact t m p R)]. Qed.
+Print Assumptions C38_pairs_exact.
+
+(* One page after an arbitrary key a (AfterKey = "0x%x" of a) and the first page (AfterKey ""):
+   the first qty keys with the prefix that are greater than a.  Every page size, 0 included. *)
+Theorem C38_page_after : forall t m p qty a, Rep t m -> guard_trim m p = false ->
+  keys_paged t p qty (hex0x a) = Ok (spec_page m p qty (Some a)) /\
+  keys_paged t p qty [] = Ok (spec_page m p qty None).
+Proof. exact page_after. Qed.
+Print Assumptions C38_page_after.
+
+(* What the specification lists are, in the words of the property: spec_keys m p holds exactly the
+   keys of the state that start with the prefix, in strictly ascending byte order (so each once);
+   spec_pairs pairs exactly those keys with their current values; with no prefix, every key. *)
+Theorem C38_spec_meaning : forall t m p, Rep t m ->
+  ((forall k, In k (spec_keys m p) <-> (exists v, bm_get m k = Some v) /\ bytes_prefix p k = true) /\
+   bsorted (spec_keys m p) /\ NoDup (spec_keys m p)) /\
+  (map fst (spec_pairs m (Some p)) = spec_keys m p /\
+   (forall k ov, In (k, ov) (spec_pairs m (Some p)) -> ov = bm_get m k /\ ov <> None) /\
+   (forall k ov, In (k, ov) (spec_pairs m None) -> ov = bm_get m k /\ ov <> None) /\
+   map fst (spec_pairs m None) = map fst m).
+Proof.
+  intros t m p R. split; [exact (spec_keys_meaning t m p R)|exact (spec_pairs_meaning t m p R)].
+Qed.
+Print Assumptions C38_spec_meaning.
+
+(* "every state": every sorted byte-string map is the content of a trie satisfying Rep (reached by
+   Puts), and conversely Rep forces the map to be sorted; C38_states gives the Put histories. *)
+Theorem C38_every_state : forall m,
+  (bm_sorted m = true -> exists t, Rep t m) /\ (forall t, Rep t m -> bm_sorted m = true).
+Proof.
+  intros m. split; [exact (every_map_is_a_state m)|intros t R; exact (Rep_sorted_bmap t m R)].
+Qed.
+Print Assumptions C38_every_state.
+
+(* non-vacuity of C38_paging_go / C38_paging_exact inside the guard: the loop still terminates and
+   enumerates both keys, in order, once *)
+Example C38_go_nonvacuous :
+  paging 5 (trie_of_entries w_state) [n2b 16] 1 [] =
+    Ok (pages_of (go_keys_with_prefix (bm_of_list w_state) [n2b 16]) 1, true) /\
+  go_keys_with_prefix (bm_of_list w_state) [n2b 16] = [[n2b 16; n2b 1]; [n2b 31; n2b 2]] /\
+  spec_keys (bm_of_list w_state) [n2b 16] = [[n2b 16; n2b 1]].
 Proof. vm_compute. repeat split; reflexivity. Qed.
